@@ -554,8 +554,12 @@ def rule_nodir(ctx: Ctx, rule: str) -> None:
                    witness='translate() and compile() would disagree on what a directory is under NODIR')
             t = text[k].decode('latin-1') if isinstance(text[k], bytes) else text[k]
             check_text(ctx, rule, f'{WP}:{nixn}[{k}]/language', repo.loc(WP, repo.const_line(WP, nixn)), t,
-                       NODIR_REF[var], [], "fullmatch semantics: names ending in a separator, or whose last segment is `.`/`..`",
-                       universe=255 if k else rx.MAXCP, fullmatch=True)
+                       NODIR_REF[var], [], "fullmatch semantics: names ending in a separator, or whose last segment is `.`/`..` -- also when "
+                       "the name contains a newline: glob('*', flags=NODIR) must not return the directory 'a\\nb'",
+                       universe=255 if k else rx.MAXCP, fullmatch=True, standalone=True)
+            same_flags = rc[k].flags & ~32 == 0  # only re.UNICODE (implicit for str) may be set on the compiled twin
+            ctx.ob(rule, f'{WP}:{ren}[{k}]/flags', same_flags, repo.loc(WP, repo.const_line(WP, ren)),
+                   'compiled without extra flags (the text twin returned by translate carries none)', f'flags={rc[k].flags}')
 
 
 # ------------------------------------------------------------------------------------------------ R8
